@@ -311,5 +311,5 @@ PROPS['X01'] = dict(
          'limits 1..5; non-trivial = the script offers something',
     exhaustive=False,
     min_stats={'scripts': 40},
-    assumptions=['gaps are measured by the feeder; the reader\'s timer is trusted within 60 ms'],
+    assumptions=['gaps are measured by the feeder; the reader\'s timer is trusted within 150 ms'],
 )
